@@ -127,6 +127,9 @@ def judge(cfg, w):
 # ---------------------------------------------------------------------------------------------------
 # generators
 # ---------------------------------------------------------------------------------------------------
+# Proof/ArbiterRefute.v: d17_schedule, d22_schedule
+WITNESS_D17 = [("M",)] * 3 + [("X", 100, 0), ("C",)] + [("M",)] * 6
+WITNESS_D22 = [("M",)] * 9 + [("X", 100, 768), ("X", 101, 768), ("C",), ("M",), ("C",)]
 
 def cfg_of(workers, timeout, graceful=1, rand=0.0):
     return {"workers": workers, "timeout": timeout, "graceful_timeout": graceful, "rand": rand}
@@ -162,6 +165,9 @@ def fixed_cases():
     cases.append((cfg_of(2, 0), [("M",)] * 12 + [("E", 4, 0), ("S", SIG["HUP"])] + [("M",)] * 30, "reload"))
     cases.append((cfg_of(3, 2), [("M",)] * 14 + [("E", 1, 1), ("S", SIG["HUP"])] + [("M",)] * 30, "reload"))
     cases.append((cfg_of(0, 2), [("M",)] * 5 + [("S", SIG["TTIN"])] + [("M",)] * 10, "zero-workers"))
+    # the witnesses of the _refuted theorems of Props/C03.v, replayed on the implementation
+    cases.append((cfg_of(2, 0, graceful=30), WITNESS_D17, "witness-D17"))
+    cases.append((cfg_of(2, 30, graceful=30), WITNESS_D22, "witness-D22"))
     return cases
 
 
@@ -245,6 +251,8 @@ def run(ctx):
         fs = judge(cfg, w)
         if fs:
             failures.append((cfg, script, fs))
+        if tag.startswith("witness-"):
+            ctx.extra.setdefault("refutation_witnesses_replayed", {})[tag] = [t for t, _ in fs] or ["no longer fails on this tree"]
         if tag == "random" and env_events >= 3:
             ctx.sample(describe(cfg, script[:40]))
     ctx.cov["rule"] = ("schedules for the real Arbiter.run() on the simulated kernel: fixed corpus (a child death + SIGCHLD at every yield "
